@@ -188,6 +188,14 @@ def d2_join(facts, rep):
                'a partially reserved tuple keeps one predecessor reserved forever, or releases a reservation of a complete tuple')
     if n == 0:
         raise AnalysisBroken('join_helper<N>::reserve (N > 1) not instantiated')
+    join_forwarding(facts, rep, 'D2')
+    rep.floor('D2', 2, 'join')
+
+
+def join_forwarding(facts, rep, clause):
+    """join_node_base forwards a complete tuple to its successors: the inputs are consumed (tuple_accepted) only on the edge where
+    THIS put's result is non-null, and given back (tuple_rejected) on the other edge.  Shared with C14 (a rejected message is
+    kept and offered again)."""
     for fn in facts.get(D2 + 'join_node_base::handle_operations'):
         defs = Defs(fn)
         tp = set(c[1] for c in calls_named(fn, ('try_put_task',)))
@@ -200,9 +208,9 @@ def d2_join(facts, rep):
         ok = bool(fwd_acc) and bool(rej) and all(dominated_by_edges(fn, c[0], ae)[0] for c in fwd_acc) and all(dominated_by_edges(fn, c[0], re_)[0] for c in rej)
         for (b, si) in re_:
             ok = ok and every_path_passes(fn, (fn.blocks[b]['succ'][si], -1), lambda p, e: p in set(c[0] for c in rej))[0]
-        rep.ob('D2', 'K4', fn, 'the join consumes its inputs only when the successor accepted the tuple, and releases them otherwise', ok,
-               'tuple_accepted/tuple_rejected not tied to the result of try_put_task')
-    rep.floor('D2', 2, 'join')
+        rep.ob(clause, 'K4', fn, 'the join consumes its inputs only when the successor accepted the tuple, and releases them otherwise', ok,
+               'tuple_accepted/tuple_rejected not tied to the result of try_put_task: a tuple that every successor rejected is consumed '
+               '(its messages are lost) or an accepted one is kept (delivered twice)')
 
 
 def d2_rejection_is_clean(facts, rep):
